@@ -414,6 +414,10 @@ func (c *fctx) applyContract(fr *frame, key string, ct *spec.FuncContract, fn *s
 			e.vars[resultAlias(i, rs.Len())] = sval{t: v, sort: srt, gt: t}
 		}
 	}
+	// the callee's internal yield-error counter is not observable by the caller
+	if _, ok := e.vars["yielderrs"]; !ok {
+		e.vars["yielderrs"] = sval{t: c.fresh("r.yielderrs", "Int"), sort: "Int", gt: types.Typ[types.Int]}
+	}
 	for _, en := range ct.Ensures {
 		g := e.tr(en.E)
 		c.assume(implies(reach, g.t))
@@ -1054,6 +1058,9 @@ func (c *fctx) rangeFunc(fr *frame, in ssa.CallInstruction, mc *ssa.MakeClosure,
 	for _, b := range mc.Bindings {
 		bindings = append(bindings, c.operand(fr, b))
 	}
+	// ghost: yielderrs = number of yields so far whose last argument (of type error) was non-nil
+	intT := types.Typ[types.Int]
+	li.extra = map[string]sval{"yielderrs": {t: "0", sort: "Int", gt: intT}}
 	// 1. invariants hold on entry
 	c.checkInvariants(fr, li, reach, st, nil, "established")
 	// 2. havoc everything the body may write (no frame refinement: the invariants must carry what is needed)
@@ -1084,6 +1091,9 @@ func (c *fctx) rangeFunc(fr *frame, in ssa.CallInstruction, mc *ssa.MakeClosure,
 		na := c.region(st, "alloc", "(Array Int Bool)")
 		c.assume(fmt.Sprintf("(forall ((x!a Int)) (! (=> (select %s x!a) (select %s x!a)) :pattern ((select %s x!a))))", preAlloc, na, preAlloc))
 	}
+	errs := c.fresh("rf.yielderrs", "Int")
+	c.assume(fmt.Sprintf("(>= %s 0)", errs))
+	li.extra["yielderrs"] = sval{t: errs, sort: "Int", gt: intT}
 	c.assumeInvariants(fr, li, reach, st)
 	// the jump variable is READY (0) whenever the iterator is about to call yield or has finished
 	var jumpAddr *addr
@@ -1110,7 +1120,15 @@ func (c *fctx) rangeFunc(fr *frame, in ssa.CallInstruction, mc *ssa.MakeClosure,
 			nf.vals[fv] = bindings[i]
 		}
 	}
+	errs1 := errs
+	if n := len(yf.Params); n > 0 {
+		last := yf.Params[n-1]
+		if types.Identical(last.Type(), types.Universe.Lookup("error").Type()) {
+			errs1 = c.define("rf.yielderrs1", "Int", fmt.Sprintf("(+ %s (ite (= %s nilI) 0 1))", errs, nf.vals[last].t))
+		}
+	}
 	rets := c.runBody(nf, breach, body)
+	li.extra["yielderrs"] = sval{t: errs1, sort: "Int", gt: intT}
 	conds := []string{and(reach, done)}
 	sts := []*state{st.clone()}
 	for _, r := range rets {
@@ -1126,4 +1144,7 @@ func (c *fctx) rangeFunc(fr *frame, in ssa.CallInstruction, mc *ssa.MakeClosure,
 	merged := c.mergeStates(conds, sts)
 	st.h = merged.h
 	c.assume(implies(reach, or(conds...)))
+	if fr.top {
+		c.rfErrsFinal = c.define("rf.yielderrsF", "Int", fmt.Sprintf("(ite %s (ite %s %s %s) 0)", reach, done, errs, errs1))
+	}
 }
